@@ -346,6 +346,30 @@ fn cmd_digest(id: &str, tier: Tier, nthreads: usize) -> i32 {
     0
 }
 
+/// The process allocator: the system allocator plus one hook — every allocation made inside a library call proper may
+/// advance the simulated clock of the calling thread ("time flows with work", kernel::seams::on_alloc). Off unless a
+/// scenario sets a tick.
+struct TickAlloc;
+unsafe impl std::alloc::GlobalAlloc for TickAlloc {
+    unsafe fn alloc(&self, l: std::alloc::Layout) -> *mut u8 {
+        kernel::seams::on_alloc();
+        std::alloc::System.alloc(l)
+    }
+    unsafe fn dealloc(&self, p: *mut u8, l: std::alloc::Layout) {
+        std::alloc::System.dealloc(p, l)
+    }
+    unsafe fn alloc_zeroed(&self, l: std::alloc::Layout) -> *mut u8 {
+        kernel::seams::on_alloc();
+        std::alloc::System.alloc_zeroed(l)
+    }
+    unsafe fn realloc(&self, p: *mut u8, l: std::alloc::Layout, n: usize) -> *mut u8 {
+        kernel::seams::on_alloc();
+        std::alloc::System.realloc(p, l, n)
+    }
+}
+#[global_allocator]
+static ALLOC: TickAlloc = TickAlloc;
+
 fn main() {
     install_panic_hook();
     let _ = std::collections::hash_map::RandomState::new();
